@@ -194,6 +194,16 @@ def run(ctx, R):
               and isinstance(n.value, ast.Call) and ctx.raises.exc_name(
                   fw, n.value) == 'webob.exc.HTTPInternalServerError'] \
             if hs else []
+        if hs and not mk:
+            # built in place: HTTPInternalServerError(...).generate_response
+            class _V(object):
+                pass
+            for n in own_nodes_of(hs[0]):
+                if isinstance(n, ast.Call) and ctx.raises.exc_name(
+                        fw, n) == 'webob.exc.HTTPInternalServerError':
+                    v_ = _V()
+                    v_.value = n
+                    mk.append(v_)
         fmt = [n for n in own_nodes_of(hs[0]) if isinstance(n, ast.Assign)
                and any(src(x).endswith('.json_formatter')
                        for x in n.targets) and prog.dotted(
